@@ -68,20 +68,26 @@ Fixpoint track (h : bytes -> N) (bel : list state) (evs : list oevent) (i : N) :
 Definition check_lcase (c : lcase) : list N :=
   track (hash_of (lc_hash c)) [init] (lc_events c) 0.
 
-(* ---- client histories: per event the requests written ---- *)
+(* ---- client histories: per event the requests written and the session
+   manager's counts (per-address map at the event's address, registry size) ---- *)
 Definition same_requests (a b : list request) : bool :=
   Nat.eqb (length a) (length b) && includes a b && includes b a.
 
-(* codes: 10*i + 3  the requests written at event i differ from the model's *)
-Fixpoint ctrack (c : client) (evs : list (cevent * list request)) (i : N) : list N :=
+Record cobs := { co_sent : list request; co_addr : bytes; co_per : N; co_all : N }.
+
+(* codes: 10*i + 3  the requests written at event i differ from the model's
+          10*i + 4  serverSessions[addr] / allSessions sizes differ from the model's *)
+Fixpoint ctrack (c : client) (evs : list (cevent * cobs)) (i : N) : list N :=
   match evs with
   | [] => []
-  | (e, obs) :: evs' =>
+  | (e, o) :: evs' =>
       let '(c', out) := cstep c e in
-      if same_requests out obs then ctrack c' evs' (i + 1) else [10 * i + 3]
+      if negb (same_requests out (co_sent o)) then [10 * i + 3]
+      else if negb ((cnt_of (cl_server c') (co_addr o) =? co_per o) && (cl_all c' =? co_all o)) then [10 * i + 4]
+      else ctrack c' evs' (i + 1)
   end.
 
-Inductive anycase := LCase (c : lcase) | CCase (evs : list (cevent * list request)).
+Inductive anycase := LCase (c : lcase) | CCase (evs : list (cevent * cobs)).
 
 Definition check_case (c : anycase) : list N :=
   match c with
